@@ -312,6 +312,20 @@ func run(p prog, seed int64) {
 				"dataok", "yes", "peerwrote", 0, "got", 0)
 		}
 	}
+	// create-then-close-at-once on unreliable tubes (the close may land before the initiation goroutine is parked)
+	if p.id%3 == 1 {
+		for k := 0; k < 6; k++ {
+			uq, err := ma.CreateUnreliableTube(7)
+			if err != nil {
+				break
+			}
+			res, ms, ret := timed(5*time.Second, func() string { return errs(uq.Close()) })
+			ev("op", "close", "end", "A", "res", res, "ms", ms, "ret", yn(ret), "kind", "unreliable-at-once")
+			if !ret {
+				break
+			}
+		}
+	}
 	// every muxer is stopped at the end; then no tube goroutine may be left
 	for end, m := range map[string]*tubes.Muxer{"A": ma, "B": mb} {
 		e := map[string]*scriptconn.End{"A": n.A, "B": n.B}[end]
